@@ -10,6 +10,7 @@ mkdir -p .build evidence replays
 (cd go/formulas && GOCACHE="$PWD/../../.build/gocache" go build -o ../../.build/formulas . && { ../../.build/formulas /repo "$PWD/../../lean/CvssVerif/Generated/Formulas.lean" "$PWD/reference.lean" || cp reference.lean ../../lean/CvssVerif/Generated/Formulas.lean; })
 (cd go/tables && GOCACHE="$PWD/../../.build/gocache" go build -o ../../.build/tables . && { ../../.build/tables /repo "$PWD/../../lean/CvssVerif/Generated/Tables.lean" "$PWD/reference.lean" || cp reference.lean ../../lean/CvssVerif/Generated/Tables.lean; })
 (cd go/wiring && GOCACHE="$PWD/../../.build/gocache" go build -o ../../.build/wiring . && { ../../.build/wiring /repo "$PWD/../../lean/CvssVerif/Generated/Wiring.lean" "$PWD/reference.lean" || cp reference.lean ../../lean/CvssVerif/Generated/Wiring.lean; })
+(cd go/glue && GOCACHE="$PWD/../../.build/gocache" go build -o ../../.build/glue . && { ../../.build/glue /repo "$PWD/../../lean/CvssVerif/Generated/Glue.lean" "$PWD/reference.lean" || cp reference.lean ../../lean/CvssVerif/Generated/Glue.lean; })
 (cd go/decoders && GOCACHE="$PWD/../../.build/gocache" go build -o ../../.build/decoders . && { ../../.build/decoders /repo "$PWD/../../lean/CvssVerif/Generated/Decoders.lean" "$PWD/reference.lean" || cp reference.lean ../../lean/CvssVerif/Generated/Decoders.lean; })
 (cd lean && LEAN_NUM_THREADS=16 lake build CvssVerif cvssmodel)
 # the tie by translation of the score functions (not part of the library root: a source that is no longer provably the model
@@ -18,7 +19,7 @@ mkdir -p .build evidence replays
 # the tie by translation of the per-metric types (same reason for keeping it out of the library root; reported by C20)
 (cd lean && LEAN_NUM_THREADS=16 lake build CvssVerif.Props.SrcTab) || echo "setup: Props/SrcTab.lean does not check against /repo's current metric types (reported by the check of C20)"
 # the tie by translation of the decoders, encoders and validity checks (reported by C07-C12)
-(cd lean && LEAN_NUM_THREADS=16 lake build CvssVerif.Props.SrcDec CvssVerif.Props.SrcAll CvssVerif.Props.SrcRep) || echo "setup: Props/SrcDec.lean does not check against /repo's current decoders (reported by the checks of C07-C12)"
+(cd lean && LEAN_NUM_THREADS=16 lake build CvssVerif.Props.SrcDec CvssVerif.Props.SrcAll CvssVerif.Props.SrcRep CvssVerif.Props.SrcGlue) || echo "setup: Props/SrcDec.lean does not check against /repo's current decoders (reported by the checks of C07-C12)"
 cp /repo/go.sum go/harness/go.sum
 (cd go/harness && { GOCACHE="$PWD/../../.build/gocache" CGO_ENABLED=0 go build -tags verif -o ../../.build/harness . || GOCACHE="$PWD/../../.build/gocache" CGO_ENABLED=0 go build -o ../../.build/harness . ; })
 echo "setup ok"
